@@ -352,6 +352,9 @@ func (cc *checkCtx) runNondetScan() {
 				case ssa.CallInstruction:
 					if f := x.Common().StaticCallee(); f != nil && f.Pkg != nil {
 						p := f.Pkg.Pkg.Path()
+						if strings.Contains(f.String(), "sync.Pool") {
+							bad = append(bad, fmt.Sprintf("%s: sync.Pool (state shared between runs) at %s", e.keyOf(fn), cc.posOfIns(ins)))
+						}
 						if p == "math/rand" || p == "crypto/rand" || (p == "time" && (f.Name() == "Now" || f.Name() == "Since")) {
 							bad = append(bad, fmt.Sprintf("%s: call to %s.%s at %s", e.keyOf(fn), p, f.Name(), cc.posOfIns(ins)))
 						}
@@ -361,7 +364,7 @@ func (cc *checkCtx) runNondetScan() {
 		}
 	}
 	o := &Obligation{Name: "scan:nondeterminism-sources", Kind: "scan", Tags: []string{"C03"}, Fn: "scan", Solver: "ssa-scan", Result: "unsat",
-		Desc: fmt.Sprintf("%d functions scanned: no go/select statement, clock, random source or pointer-to-integer conversion", nfn)}
+		Desc: fmt.Sprintf("%d functions scanned: no go/select statement, clock, random source, sync.Pool or pointer-to-integer conversion", nfn)}
 	if len(bad) > 0 {
 		o.Result = "sat"
 		o.Desc = strings.Join(bad, "; ")
